@@ -1,5 +1,5 @@
 NAME = 'U-apply'
-PROPERTIES = ['C09', 'C14', 'C02']
+PROPERTIES = ['C09', 'C14', 'C02', 'C15']
 ENGINE = 'verus'
 CLASS = 'U'
 DOC = ('UpdateExecutor::execute_internal (executor update/mod.rs), from "Step 8: Apply all updates" to the end - how an UPDATE is APPLIED: every prepared '
